@@ -200,6 +200,37 @@ def run(f, fixture, rep, cfg, tier):
         rep.check(len(fl) >= 1, "R4", "%s|flush" % fmt_key(b.path), "%s forwards flush" % b.path,
                   "%s does not forward flush to the inner writer" % b.path, b.span)
 
+    # R6 buffered sinks created on the cone are flushed before they are dropped (Drop swallows the flush error)
+    rep.rule("R6", "a BufWriter created on the write cone is explicitly flushed with its error propagated")
+    nbuf = 0
+    for b in non_adapter.values():
+        for c in b.calls():
+            if not re.search(r"std::io::BufWriter::<W>::(new|with_capacity)$", c.decl):
+                continue
+            nbuf += 1
+            holders = set()
+            work = [c.dest["l"]]
+            while work:
+                l = work.pop()
+                if l in holders:
+                    continue
+                holders.add(l)
+                for (bb, idx, role, payload, pl) in b.uses(l):
+                    if role == "use" and isinstance(payload, dict) and payload.get("k") == "assign" and not payload["lhs"]["p"]:
+                        work.append(payload["lhs"]["l"])
+            flushed = False
+            for l in holders:
+                for (w, i) in b.mut_borrow_calls(l):
+                    if w.decl == "std::io::Write::flush" and i == 0:
+                        via_q = any(isinstance(u[2], tuple) and b.call_at(u[0]).decl == "std::ops::Try::branch" for u in b.uses(w.dest["l"])) or w.dest["l"] == 0
+                        oks = set(ok_assign_blocks(b))
+                        dominates_ok = all(b.dominates(w.bb, o) for o in oks) if oks else w.dest["l"] == 0
+                        if via_q and dominates_ok:
+                            flushed = True
+            rep.check(flushed, "R6", "%s|bufwriter-flushed" % fmt_key(b.path), "%s flushes its BufWriter and propagates the error" % fmt_key(b.path),
+                      "%s wraps the sink in a BufWriter that is dropped without an explicit flush: the error of the final flush is swallowed and success is reported with bytes missing" % b.path, c.loc())
+    rep.count("bufwriters_on_write_cone", nbuf)
+
     # R5 reads
     proots = _roots(f, PARSE_ROOTS)
     rep.anchor(len(proots) >= 4, "R5", "parse roots")
